@@ -234,8 +234,49 @@ def run(ctx, tier):
         r_enf.inst('no enforce_bounds uses an early-return bounds test', ok=True, nontrivial=False)
     r_canon = _canon(ctx, prim)
     _unit(ctx, prim, r_canon)
+    _project(ctx, prim, r_enf)
     r_acc = _accept(ctx, prim)
     return [r_lost, r_same, r_range, r_enf, r_canon, r_acc]
+
+
+def _project(ctx, prim, r_enf):
+    """cone spaces: an out-of-cone state is brought back by interpolating FROM the stored centre TO the state with parameter
+    max_angle / distance(centre, state): by constant-speed interpolation (C10) the result then lies exactly max_angle from the
+    centre, on the boundary.  Any other parameter (or end points the other way round) leaves the state inside or outside
+    the cone by a data-dependent amount, so the bounds check need not accept what enforce_bounds leaves behind."""
+    from ..core import DISTANCE, INTERPOLATE
+    for adt, bty in prim:
+        if bty.startswith('std::vec::Vec<') or bty == '(f64, f64)':
+            continue
+        eb = space_methods(ctx, adt).get('enforce_bounds')
+        if eb is None:
+            continue
+        fn = ctx.fn(eb)
+        calls = [(bi, t) for bi, t in eb.calls() if (t['func'].get('path') == INTERPOLATE or (t['func'].get('name') == 'interpolate')) and len(t['args']) == 5]
+        probs = []
+        if not calls:
+            continue
+        centre = lambda ts: bool(ts) and all(q[0] == 'field' and q[2] == '0' and self_field(q[1], 'bounds') for q in strip_clone(ts))
+        radius = lambda ts: bool(ts) and all(q[0] == 'field' and q[2] == '1' and self_field(q[1], 'bounds') for q in strip_clone(ts))
+        state = lambda ts: bool(ts) and all(q[0] == 'param' and q[1] == 2 for q in strip_clone(ts))
+        for bi, t in calls:
+            a_from, a_to, a_t = fn.arg_terms(t, 1, bi), fn.arg_terms(t, 2, bi), fn.arg_terms(t, 3, bi)
+            if not centre(a_from) or not state(a_to):
+                probs.append('the projection interpolates from %s to %s, not from the stored centre to the state' % (fmt_terms(a_from)[:40], fmt_terms(a_to)[:40]))
+                continue
+            okt = False
+            if len(a_t) == 1:
+                n = next(iter(a_t))
+                if n[0] == 'binop' and n[1] == 'Div' and radius(n[2]) and n[3] and all(
+                        d[0] == 'call' and (d[1] == DISTANCE or d[1].endswith('::distance')) and len(d[2]) == 3 and
+                        ((centre(d[2][1]) and state(d[2][2])) or (centre(d[2][2]) and state(d[2][1]))) for d in n[3]):
+                    okt = True
+            if not okt:
+                probs.append('the projection parameter is %s, not max_angle / distance(centre, state): the enforced state does not end on '
+                             'the cone boundary' % fmt_terms(a_t)[:80])
+        r_enf.inst('%s: out-of-cone states are projected with t = max_angle / distance(centre, state) from the centre' % eb.path, ok=not probs, site=eb.loc(0))
+        for o, pr in enumerate(probs):
+            r_enf.violations.append(Violation('C11', 'C11.enforce', eb.path, 'projection', pr, loc=eb.loc(0), ordinal=o))
 
 
 def _canon(ctx, prim):
